@@ -55,6 +55,11 @@ def run(tier):
         if len(imps) == 1:
             c11.copysign_rule(chk, F, ty, imps[0], tag="select")
     float_instances(chk, F)
+    # conversions between float widths are operations too: the real part of the result is the converted real part (rule set of C13)
+    from . import c13
+    c13.container_conversions(chk, F, True)
+    for ty in FIELD4:
+        c13.type_conversions(chk, F, ty, True)
     chk.floor("operations dependency-analysed", chk.analysed.get("operations dependency-analysed", 0), 8 * 60)
     chk.floor("comparison items", chk.analysed.get("comparison items", 0), 20)
     chk.floor("float items", chk.analysed.get("float items", 0), 2 * 29)
